@@ -52,6 +52,10 @@ type Contract struct {
 	Assigns  []*Expr
 	Allocates []*Expr
 	AbsIdx bool // `absolute positions`: quantifiers over slice indices are instantiated by absolute array position (sub-slices of one array then share instantiation patterns)
+	Sliced bool // `sliced context`: each query keeps only the context lines connected (through shared symbols) to its goal
+	StructuralOnly bool // `structural`: only the obligations decided on the shape of the code are generated (no symbolic execution of the body)
+	NoMapIter bool // `no map iteration`: neither the function nor any same-package function it calls (transitively) iterates over a Go map, selects, or starts a goroutine; callees in other packages are assumed order-insensitive (listed)
+	DetReason string // `deterministic "why"`: the function's own map iterations are order-insensitive for the stated reason (listed as an assumption); everything else is checked as usual
 	Deterministic bool // `deterministic`: no map iteration, channel operation, goroutine, or call of a function that is not itself declared deterministic
 	EveryLoopIterates bool // `every loop iterates`: each for/range statement of the source has a back edge (can reach a second iteration)
 	Ignores  map[string]bool // "<callee>#<label>": postconditions of callees NOT assumed inside this function (keeps quantified facts that only cause matching loops out of its queries)
@@ -134,7 +138,7 @@ func newDB() *ContractDB {
 
 var subKeywords = map[string]bool{"arith": true, "requires": true, "assumes": true, "allocates": true, "ensures": true, "assigns": true, "pure": true, "inline": true,
 	"trusted": true, "loop": true, "invariant": true, "decreases": true, "unroll": true, "assert": true, "check": true, "assume": true, "replay": true,
-	"nosafety": true, "abstract": true, "using": true, "let": true, "opaque": true, "keeps": true, "dead": true, "trusts": true, "ignores": true, "every": true, "deterministic": true, "apply": true, "forgets": true, "derive": true, "cut": true, "absolute": true}
+	"nosafety": true, "abstract": true, "using": true, "let": true, "opaque": true, "keeps": true, "dead": true, "trusts": true, "ignores": true, "every": true, "deterministic": true, "apply": true, "forgets": true, "derive": true, "cut": true, "absolute": true, "sliced": true, "no": true, "structural": true}
 // contract profile selected by the property being checked ("" = default contracts only)
 var activeProfile string
 var profiled = map[string]bool{}
@@ -520,8 +524,21 @@ func (db *ContractDB) loadFile(pkg *packages.Package, f *ast.File, fname string)
 					db.errf("%s: expected `absolute positions`", where)
 				}
 				cur.AbsIdx = true
+			case "sliced":
+				if strings.TrimSpace(rest) != "context" {
+					db.errf("%s: expected `sliced context`", where)
+				}
+				cur.Sliced = true
+			case "structural":
+				cur.StructuralOnly = true
+			case "no":
+				if strings.TrimSpace(rest) != "map iteration" {
+					db.errf("%s: expected `no map iteration`", where)
+				}
+				cur.NoMapIter = true
 			case "deterministic":
 				cur.Deterministic = true
+				cur.DetReason = strings.Trim(strings.TrimSpace(rest), "\"")
 			case "every":
 				if strings.TrimSpace(rest) == "loop iterates" {
 					cur.EveryLoopIterates = true
